@@ -11,6 +11,7 @@ import time
 import extract_linemap
 import gen_linemap
 import kani_run
+import semtok_verus
 from common import VERIF, REPO, scratch, Undecided, write_evidence, write_replay, load_known_findings, finish
 from rustcut import AnchorLost
 
@@ -97,11 +98,20 @@ def main(prop, tier):
     if tier == 'quick':
         cans = cans[:1]
     jobs = int(os.environ.get('VERIF_JOBS', '15'))
+    ded, ded_can = None, []
     try:
-        with cf.ThreadPoolExecutor(max_workers=2) as pool:
+        with cf.ThreadPoolExecutor(max_workers=3) as pool:
             fc = [pool.submit(run_canary, prop, c, i, tier) for i, c in enumerate(cans)]
+            if prop == 'C19':
+                # deductive part (Verus, unbounded in the highlight list and the document); the Kani harnesses below check
+                # the line-map contract it assumes, and the encoder itself once more, on enumerated documents
+                fd = pool.submit(semtok_verus.run)
+                fdc = [pool.submit(semtok_verus.canary, c, i) for i, c in enumerate(semtok_verus.CANARIES[:1 if tier == 'quick' else None])]
             results = kani_run.run_many(d, names, FLAGS, 2400, jobs=jobs)
             can = [f.result() for f in fc]
+            if prop == 'C19':
+                ded = fd.result()
+                ded_can = [f.result() for f in fdc]
     except Undecided as e:
         return undecided(prop, tier, t0, str(e))
     byname = {h['name']: h for h in hs}
@@ -134,6 +144,25 @@ def main(prop, tier):
         path = write_replay(prop, oblig, fcheck['location'], 'kani 0.68.0 / cbmc 6.11', json.dumps(fcheck), wit,
                             './check %s --replay <this file>' % prop)
         violations.append((path, wit is not None))
+    if ded and ded['status'] == 'failed':
+        # failed obligations of the deductive part; a concrete failing input, when there is one, comes from the Kani harnesses above
+        seen_fn = set()
+        for f in ded['failures']:
+            if f['fn'] in seen_fn:
+                continue
+            seen_fn.add(f['fn'])
+            wit = None
+            if violations:
+                first = json.load(open(violations[0][0]))
+                wit = first.get('witness')
+            path = write_replay(prop, f['id'], f['where'], 'verus 0.2026.09.13', '\n'.join(x['rendered'] for x in ded['failures'] if x['fn'] == f['fn']),
+                                wit, './check %s --replay <this file>' % prop)
+            violations.append((path, wit is not None))
+    if ded and ded['status'] == 'verified':
+        if ded.get('reachability_guard') != 'rejected-as-required':
+            guard.append('semtok unit: precondition reachability guard: %s' % ded.get('reachability_guard'))
+        if any(c['status'] == 'NOT-TRIPPED' for c in ded_can):
+            guard.append('semtok unit: canary not detected: %s' % [c['name'] for c in ded_can if c['status'] == 'NOT-TRIPPED'])
     ok = [r for r in results if r['status'] == 'SUCCESSFUL']
     for r in ok:
         if r.get('unsat_covers'):
@@ -155,8 +184,12 @@ def main(prop, tier):
            'functions_under_contract': ex['functions'], 'standins': ex['standins'], 'extraction_dropped': ex['dropped'],
            'back_end': 'Kani 0.68.0 / CBMC 6.11 (bounded stand-in: Verus rejects every one of these function texts, DESIGN.md 3.4)',
            'cbmc_s_total': round(sum(r.get('cbmc_s', 0) or 0 for r in results), 1),
-           'canaries': can, 'checker_cmd': results[0]['cmd'] if results else ''}
-    assumptions = ex['standins'] + [
+           'canaries': can + ded_can, 'checker_cmd': results[0]['cmd'] if results else ''}
+    if ded:
+        cov['deductive_part'] = ded
+        if ded['status'] == 'verified':
+            cov['obligations'], cov['discharged'] = ded['verified'] + ded['errors'], ded['verified']
+    assumptions = ex['standins'] + ([DED_NOTE] if ded else []) + [
         'oracle: tools/lsp_reference.py, a naive LSP client written from the specification (shares no code with glas)',
         'server.rs::on_did_change (tokio / async-lsp) is not buildable under Kani: the per-change loop is covered only by the induction argument of DESIGN.md 3.4 (K6)',
         'Slab, Arc, text-size, anyhow are the real crates, executed symbolically; arithmetic is CBMC machine arithmetic with overflow checks (debug-build semantics)',
@@ -167,6 +200,14 @@ def main(prop, tier):
     if guard and not violations:
         finish(prop, [], known_lines, 'vacuity guard failed: ' + '; '.join(guard[:4]))
     finish(prop, violations, known_lines)
+
+
+DED_NOTE = ('deductive part (Verus): convert::to_semantic_tokens, to_range and semantic_tokens::to_semantic_type_and_modifiers are verified for ALL highlight lists '
+            '(sorted, disjoint, on character boundaries, inside the text) and ALL line maps satisfying LineMap::ok (line_col_for_pos monotone on boundaries, lines <= last_line, '
+            'columns <= end_col_for_line): no arithmetic underflow/overflow, end_col_for_line only called for existing lines, and the LSP decoding of the result equals the per-line pieces '
+            'of the highlights with the type index of the advertised legend. ASSUMED there: the contracts of LineMap::line_col_for_pos / end_col_for_line / last_line (external_body; these '
+            'are what the Kani harnesses of C14 and of this check establish on enumerated documents), lsp_types/text-size stand-in structs, derive(Default) of TokenModSet, rewrites R13-R16 '
+            '(tools/extract_semtok.py). If the unit cannot be extracted or Verus rejects it, this part is reported as undecided and the bounded harnesses alone decide.')
 
 
 def decode_vals(hname, vals):
